@@ -89,3 +89,39 @@ func (o *Once) Do(f func()) {
 
 // Locker is sync.Locker.
 type Locker = sync.Locker
+
+// Map and Pool never block, so the real ones are used as they are.
+type Map = sync.Map
+type Pool = sync.Pool
+
+// Cond is sync.Cond over a vsync Locker.
+type Cond struct {
+	L    Locker
+	real *sync.Cond
+}
+
+// NewCond is sync.NewCond.
+func NewCond(l Locker) *Cond { return &Cond{L: l, real: sync.NewCond(l)} }
+
+func (c *Cond) Wait() {
+	if !mcrt.Active() {
+		c.real.Wait()
+		return
+	}
+	t := mcrt.CondEnqueue(c)
+	c.L.Unlock()
+	mcrt.CondWait(c, t)
+	c.L.Lock()
+}
+
+func (c *Cond) Signal() {
+	if !mcrt.CondWake(c, false) {
+		c.real.Signal()
+	}
+}
+
+func (c *Cond) Broadcast() {
+	if !mcrt.CondWake(c, true) {
+		c.real.Broadcast()
+	}
+}
